@@ -78,6 +78,10 @@ def handle (op : String) (j : Json) : Option (R Json) :=
           pure (okJ [("flat", imgToJson R C f), ("r", imgToJson R C cr), ("g", imgToJson R C cg), ("b", imgToJson R C cb)])
         | _, _, _, _ => pure (errJ "ValueError")
       | _, _, _ => pure (errJ "AssertionError")
+  | "det.gain_rank" => some do
+      -- does the regenerated gain dispatch of adc (Gen.adcOrderSource, `gain.ndim in [...]` chain ending in `raise ValueError`) know this rank?
+      let n ← getNat j "ndim"
+      pure (okJ [("accepted", Json.bool (Gen.adcOrderSource.lookup n).isSome)])
   | "det.adc" => some do
       let sh ← getInts j "shape"
       let R := sh[0]!; let C := sh[1]!
